@@ -114,10 +114,22 @@ fn now_ms() -> u64 {
         .as_millis() as u64
 }
 
+/// heartbeats of the worker threads of a storm (0 = not running); a thread that does not beat for HANG_BUDGET_MS hangs
+pub static STORM_BEAT: [AtomicU64; 16] = [const { AtomicU64::new(0) }; 16];
+pub fn storm_beat(slot: usize, running: bool) {
+    STORM_BEAT[slot % 16].store(if running { now_ms() } else { 0 }, Ordering::SeqCst);
+}
+
 pub fn start_watchdog() {
     std::thread::spawn(|| loop {
         std::thread::sleep(std::time::Duration::from_millis(250));
-        let st = CALL_START_MS.load(Ordering::SeqCst);
+        let mut st = CALL_START_MS.load(Ordering::SeqCst);
+        for b in STORM_BEAT.iter() {
+            let v = b.load(Ordering::SeqCst);
+            if v != 0 && (st == 0 || v < st) {
+                st = v;
+            }
+        }
         if st != 0 && now_ms() - st > HANG_BUDGET_MS {
             let info = CALL_INFO.lock().unwrap().clone();
             if let (Some((idx, desc)), Some(path)) = (info, HANG_OUT.lock().unwrap().clone()) {
